@@ -20,7 +20,8 @@ EXPLANATION = (
     'recorded under "migrating" before the batch loop, from the same list '
     'that _build_migrations_info excludes from every plan it builds; '
     'R-C10.4 (write-back) after the batch loop, under "migrating", every '
-    'app signature gets applied_migrations from the migration table.')
+    'app signature gets applied_migrations from the migration table; '
+    'R-C10.5 every comparison against an UpgradeMethod member is by value (==, !=, in), never by identity: stored signatures come back with equal, not identical, strings.')
 NOT_DECIDED = (
     'Which migrations are recorded/executed for every start state (depends '
     'on Django\'s loader/executor and on the database).')
@@ -303,7 +304,44 @@ def r4_write_back(ctx):
                     key='setter-filter')
 
 
+def r5_upgrade_method_compared_by_value(ctx):
+    """UpgradeMethod.EVOLUTIONS / MIGRATIONS are plain strings.  A stored
+    signature comes back from JSON with *equal* but not *identical* strings,
+    so `sig.upgrade_method is UpgradeMethod.MIGRATIONS` is true right after
+    the hand-over and false on every later run: the applied-migration list
+    silently stops being written, evolution SQL is considered again.  Every
+    comparison against these constants must be by value."""
+    ctx.rule('R-C10.5')
+    p = ctx.program
+    consts = p.cls('consts', 'UpgradeMethod')
+    members = {k for k, v in consts.class_attrs.items()
+               if isinstance(v, ast.Constant) and isinstance(v.value, str)}
+    ctx.floor('string members of UpgradeMethod', len(members), 2)
+    n_cmp = 0
+    for f in p.all_funcs():
+        for c in ast.walk(f.node):
+            if not isinstance(c, ast.Compare):
+                continue
+            sides = [c.left] + list(c.comparators)
+            hit = [x for x in sides if isinstance(x, ast.Attribute) and
+                   x.attr in members and
+                   (dotted(x) or '').split('.')[-2:-1] == ['UpgradeMethod']]
+            if not hit:
+                continue
+            n_cmp += 1
+            if any(isinstance(o, (ast.Is, ast.IsNot)) for o in c.ops):
+                ctx.finding(f, c, 'upgrade method compared by identity (%s): '
+                            'a value loaded from a stored signature is equal '
+                            'to the constant but not the same object' %
+                            ' '.join(unparse(c).split()),
+                            key='identity-compare:%s' % unparse(hit[0]))
+            else:
+                ctx.ok(f, 'upgrade method compared by value', c)
+    ctx.floor('comparisons against UpgradeMethod members', n_cmp, 4)
+
+
 def run(ctx):
+    r5_upgrade_method_compared_by_value(ctx)
     r1_simulate_writes(ctx)
     r2_one_way(ctx)
     r3_record_before_migrate(ctx)
